@@ -96,14 +96,93 @@ def search(func, candidate, seed, tier, obligation=''):
                         return fail({'storage': kind, 'scenario': 'tpc_begin(t1); storeBlob(t1); '
                                      'tpc_abort(t2); tpc_vote(t1); tpc_finish(t1)'},
                                     'committed blob readable', 'blob file missing', cases)
+                    # a finish that is refused (handle of another transaction) makes nothing durable; the abort of
+                    # the real transaction afterwards must still remove the blob file moved into place by storeBlob
+                    cases += 1
+                    before0 = set(blob_files(bd))
+                    t1, t2 = H.Txn(), H.Txn()
+                    st.tpc_begin(t1)
+                    src = mk_blob_source(st.temporaryDirectory(), b'blob bytes 3')
+                    st.storeBlob(p64(3), z64, b'record3', src, '', t1)
+                    st.tpc_vote(t1)
+                    try:
+                        st.tpc_finish(t2)
+                        refused = False
+                    except Exception:  # noqa
+                        refused = True
+                    st.tpc_abort(t1)
+                    left = sorted(os.path.relpath(f, bd) for f in set(blob_files(bd)) - before0)
+                    if refused and left:
+                        return fail({'storage': kind, 'scenario': 'tpc_begin(t1); storeBlob(t1); tpc_vote(t1); '
+                                     'tpc_finish(t2) refused; tpc_abort(t1)'},
+                                    'no file of the aborted transaction in the blob directory',
+                                    'left behind: %r' % left, cases)
                 finally:
                     st.close()
             finally:
                 shutil.rmtree(d, ignore_errors=True)
-    # ---- higher level: blob create / rewrite / undo / redo / pack through a DB on FileStorage
+    # ---- two connections: a blob rewritten by one is seen by the other at its next boundary (both storages)
     import transaction
     import ZODB
     from ZODB.blob import Blob
+    for kind in ('file', 'wrapper'):
+        d = tempfile.mkdtemp(prefix='c13mv-')
+        try:
+            bd = os.path.join(d, 'blobs')
+            if kind == 'file':
+                st = H.FileStorage(os.path.join(d, 'Data.fs'), create=True, blob_dir=bd)
+            else:
+                st = BlobStorage(bd, MappingStorage())
+            db = ZODB.DB(st)
+            tm1, tm2 = transaction.TransactionManager(), transaction.TransactionManager()
+            c1, c2 = db.open(tm1), db.open(tm2)
+            c1.root()['b'] = Blob()
+            c1.root()['n'] = 0
+            with c1.root()['b'].open('w') as f:
+                f.write(b'first')
+            tm1.commit()
+            tm2.begin()
+            with c2.root()['b'].open('r') as f:
+                seen0 = f.read()
+            with c1.root()['b'].open('w') as f:
+                f.write(b'second')
+            c1.root()['n'] = 1
+            tm1.commit()
+            tm2.begin()
+            cases += 1
+            with c2.root()['b'].open('r') as f:
+                seen1 = f.read()
+            n1 = c2.root()['n']
+            r = None
+            if seen0 != b'first' or seen1 != b'second' or n1 != 1:
+                r = fail({'storage': kind, 'scenario': 'conn2 reads the blob; conn1 rewrites it and commits; conn2 '
+                          'begins a new transaction and reads again'},
+                         "conn2 reads b'second' and n == 1 (one snapshot)", 'reads %r, n == %r' % (seen1, n1), cases)
+            if r is None:
+                # an append on top of the other connection's rewrite: ordinary write, no stale base
+                try:
+                    with c2.root()['b'].open('a') as f:
+                        f.write(b'+more')
+                    tm2.commit()
+                    tm1.begin()
+                    with c1.root()['b'].open('r') as f:
+                        seen2 = f.read()
+                    cases += 1
+                    if seen2 != b'second+more':
+                        r = fail({'storage': kind, 'scenario': 'conn2 appends after conn1 rewrote the blob'},
+                                 "b'second+more'", repr(seen2), cases)
+                except Exception as e:  # noqa
+                    tm2.abort()
+                    r = fail({'storage': kind, 'scenario': 'conn2 appends after conn1 rewrote the blob (no '
+                              'concurrent change)'}, 'commit accepted', '%s: %s' % (type(e).__name__, e), cases)
+            c1.close()
+            c2.close()
+            db.close()
+            if r:
+                return r
+        finally:
+            shutil.rmtree(d, ignore_errors=True)
+    # ---- higher level: blob create / rewrite / undo / redo / pack through a DB on FileStorage
     for keep_old in (True, False):
         d = tempfile.mkdtemp(prefix='c13db-')
         try:
